@@ -205,8 +205,12 @@ func runProxy(t *testing.T, fx *fixtures, c verifCase, w *bufio.Writer) {
 					host = str("host")
 				}
 				ensure(targets)
+				to := topts
+				if rt := dur("rt"); rt > 0 {
+					to.ResponseTimeout = rt // the target timeout of this service version
+				}
 				runCmd(kv["c"], func() error {
-					return router.DeployService(svc, targets, ServiceOptions{Hosts: []string{host + ".test"}}, topts, dur("dt"), dur("drt"))
+					return router.DeployService(svc, targets, ServiceOptions{Hosts: []string{host + ".test"}}, to, dur("dt"), dur("drt"))
 				})
 			case "rollout-deploy":
 				svc, targets := str("svc"), decList(kv["targets"])
@@ -370,6 +374,9 @@ func genProxy(rng *mrand.Rand, n int, tier string, w *bufio.Writer) {
 			host := ""
 			if !rollout && chance(rng, 15) {
 				host = " host=" + hexB([]byte(pick(rng, svcs))) // possibly another service's host: a conflict at install
+			}
+			if !rollout && chance(rng, 25) {
+				host += fmt.Sprintf(" rt=%d", dur(pick(rng, []int64{400_000_000, 1_100_000_000}))) // a short target timeout
 			}
 			fmt.Fprintf(w, "%s c=%d svc=%s targets=%s dt=%d drt=%d%s\n", op, cid, hexB([]byte(svc)), encList(ts),
 				dur(pick(rng, []int64{2_100_000_000, 3_700_000_000})), dur(pick(rng, []int64{700_000_000, 1_300_000_000})), host)
